@@ -1,7 +1,12 @@
-import subprocess, re, sys, textwrap
+"""Regenerates coq/Props/Cxx.v from the lemma names below: every property theorem restates the full statement (as printed by `Check`)
+and is closed by `exact <lemma>` with `Print Assumptions` beneath.  Usage: gen_props.py [C01 C08 ...]  (default: all listed; C02 and C13 are written by hand)."""
+import subprocess, re, sys, textwrap, os, pathlib
+ROOT = pathlib.Path(__file__).resolve().parents[1]
+os.chdir(ROOT / "coq"); (ROOT / "build").mkdir(exist_ok=True)
+TMP = str(ROOT / "build" / "_chk.v")
 # property -> (imports, [(theorem, module-qualified or plain name)])
 SPEC = {
- "C01": ("Shape BuildIdx", ["geometry_starts","geometry_lengths","geometry_size","build_indices_correct"]),
+ "C01": ("Shape BuildIdx Geometry GeomProof", ["geometry_starts","geometry_lengths","geometry_size","build_rows_observers","build_flat_accept","build_flat_reject","to_numpy_spec","from_numpy_roundtrip","legacy_offsets_shape","unravel_all","ravel_all","build_indices_correct"]),
  "C03": ("SetItem", ["setitem_correct"]),
  "C04": ("UfuncProof XorProof", ["ufunc2_correct","raw_broadcast_correct"]),
  "C05": ("ReduceProof ArgmaxProof", ["reduce_correct","argmax_correct","argmin_correct"]),
@@ -9,7 +14,7 @@ SPEC = {
  "C07": ("ScanProof AccumProof DiffProof SortProof UniqueProof UniqueLens", ["cumsum_correct","accumulate_correct","diff_correct","sort_correct","unique_correct"]),
  "C08": ("StructProof SubsetProof RSliceProof NonzeroProof PaddedProof", ["concat0_correct","subset_correct","ragged_slice_correct","nonzero_correct","padded_correct"]),
  "C09": ("ColProof ColSum", ["col_counts_correct","colsum_correct"]),
- "C10": ("HeapProof", ["run_sim","C10_partial"]),
+ "C10": ("HeapProof HeapRun HeapRunProof", ["run_sim","C10_partial","apply_hsel_natural","safe_runb_iff","C10_partial_concrete","heap_run_is_value_semantics","C10_refuted"]),
  "C11": ("HashSet HashProof", ["table_is_dictionary","getv_correct","setv_correct"]),
  "C12": ("CounterProof", ["count_correct","count_history","totals_split_and_order_invariant"]),
  "C14": ("RoundTrip RLEProof RLEPer CanonProof ToArray", ["to_array_from_array","from_array_canonical","decode_from_array","decode_from_array_R","to_array_correct","join_runs_canonical"]),
@@ -22,8 +27,8 @@ SPEC = {
 HEADER = "From Coq Require Import ZArith List Bool.\nFrom NPS Require Import ListAux PySlice NumpySem Scatter BuildIdx XorBroadcast View Index Assign Reduce Scan RaOps Heap Hash HashRun BitArr RLE RLEOps RLE2d DataClass RowsSpec AssignSpec MapSpec Denote {mods}.\nImport ListNotations.\nOpen Scope Z_scope.\n"
 def check(mods, name):
     src = HEADER.format(mods=mods) + f"Set Printing Width 110.\nCheck {name}.\n"
-    open("/tmp/_chk.v","w").write(src)
-    r = subprocess.run(["coqc","-Q",".","NPS","/tmp/_chk.v"],capture_output=True,text=True)
+    open(TMP,"w").write(src)
+    r = subprocess.run(["coqc","-Q",".","NPS",TMP],capture_output=True,text=True)
     if r.returncode: return None, r.stderr[-400:]
     out = r.stdout
     i = out.index(name.lstrip('@')); body = out[i+len(name.lstrip('@')):]
@@ -32,6 +37,7 @@ def check(mods, name):
     assert body.startswith(":"), body[:50]
     return body[1:].strip(), None
 for prop,(mods,ths) in SPEC.items():
+    if len(sys.argv) > 1 and prop not in sys.argv[1:]: continue
     lines=[f"(* {prop} — property theorems only: each restates the full statement and is closed by the lemma proved in Proofs/. *)", HEADER.format(mods=mods)]
     for t in ths:
         ty, err = check(mods, t)
